@@ -569,6 +569,10 @@ def stored_value(fn, nid, env):
     if fs is not None or not env:
         return fs
     n = fn.sn(nid)
+    if n is not None and n.get('t', '').replace('const ', '') == 'bool':
+        c = const_of(fn, nid)
+        if c is not None:       # `result = true;` on a path taken under the assumption: the flag holds exactly that value
+            return fin(1 if c else 0)
     if n is not None and n.get('t', '').replace('const ', '') == 'bool' and n.get('k') in ('binop', 'unop'):
         v = eval3(fn, nid, env)
         if v is not None:
